@@ -9,6 +9,7 @@ import (
 
 	"github.com/vicanso/elton"
 	"github.com/vicanso/pike/cache"
+	"github.com/vicanso/pike/compress"
 	"github.com/vicanso/pike/config"
 	"github.com/vicanso/pike/location"
 	"github.com/vicanso/pike/server"
@@ -24,7 +25,16 @@ func init() { suites["race"] = suiteRace }
 func suiteRace(r *rng, n int) {
 	// real clock: short lifetimes expire on their own
 	cache.VerifClock = nil
-	p := newPipeline(64, "1s", true, server.ServerOption{Addr: ":0", CompressMinLength: 16}, nil, nil)
+	// two locations listed in the configuration file in the "wrong" order (the catch-all first): every /k/ request
+	// belongs to the more specific one, also while a reload is being applied; a named compress profile is in use
+	raceLocs := func(gen int) []config.LocationConfig {
+		return []config.LocationConfig{
+			{Name: "l0", Upstream: "u1", RespHeaders: []string{"X-Loc:l0", fmt.Sprintf("X-Gen:%d", gen)}},
+			{Name: "l1", Upstream: "u1", Prefixes: []string{"/k"}, RespHeaders: []string{"X-Loc:l1", fmt.Sprintf("X-Gen:%d", gen)}},
+		}
+	}
+	compress.Reset([]config.CompressConfig{{Name: "zip", Levels: map[string]uint{"gzip": 5, "br": 5}}})
+	p := newPipeline(64, "1s", true, server.ServerOption{Addr: ":0", CompressMinLength: 16, Compress: "zip", Locations: []string{"l0", "l1"}}, raceLocs(0), nil)
 	var seq int64
 	p.setScript(func(c *elton.Context) error {
 		id := atomic.AddInt64(&seq, 1)
@@ -59,13 +69,17 @@ func suiteRace(r *rng, n int) {
 			default:
 			}
 			i++
-			switch i % 3 {
+			switch i % 5 {
 			case 0:
 				cache.RemoveHTTPCache("", []byte(fmt.Sprintf("GET r.test /k/%d", i%8)))
 			case 1:
-				location.Reset([]config.LocationConfig{{Name: "l1", Upstream: "u1", RespHeaders: []string{fmt.Sprintf("X-Gen:%d", i)}}})
+				location.Reset(raceLocs(i))
 			case 2:
-				server.Reset([]config.ServerConfig{{Addr: ":0", Locations: []string{"l1"}, Cache: "c1"}})
+				server.Reset([]config.ServerConfig{{Addr: ":0", Locations: []string{"l0", "l1"}, Cache: "c1", Compress: "zip"}})
+			case 3:
+				compress.Reset([]config.CompressConfig{{Name: "zip", Levels: map[string]uint{"gzip": uint(1 + i%9), "br": uint(1 + i%11)}}})
+			case 4:
+				cache.ResetDispatchers([]config.CacheConfig{p.cacheCfg})
 			}
 			time.Sleep(200 * time.Microsecond)
 		}
@@ -108,6 +122,9 @@ func suiteRace(r *rng, n int) {
 					want := "key=" + method + " r.test " + uri + ";"
 					if wre.Code != 200 || !ok || len(dec) < len(want) || string(dec[:len(want)]) != want {
 						res = fmt.Sprintf("bad:code=%d ce=%s body=%.60q", wre.Code, wre.Header().Get("Content-Encoding"), string(dec))
+					} else if loc := wre.Header().Get("X-Loc"); loc != "l1" && wre.Header().Get("X-Status") != "hit" {
+						// a response fetched now was routed now: by the location with the matching prefix
+						res = fmt.Sprintf("bad:routed-by=%q", loc)
 					}
 				}()
 				atomic.AddInt64(&total, 1)
